@@ -81,20 +81,10 @@ func (h *inFlightRequestsHandler) onOutgoingFrameEnqueued(f *frame.Frame) (InFli
 			f.Header.StreamId = streamId
 		}
 	}
-	h.inFlightLock.RLock()
-	if len(h.inFlight) == h.maxInFlight {
-		err = fmt.Errorf("%v: too many in-flight requests: %v", h, h.maxInFlight)
-	} else if _, found := h.inFlight[streamId]; found {
-		err = fmt.Errorf("%v: stream id already in use: %d", h, streamId)
-	}
-	h.inFlightLock.RUnlock()
-	if err == nil {
-		var inFlight *inFlightRequest
-		inFlight, err = h.addInFlight(streamId, managedStreamId)
-		if err == nil {
-			inFlight.startTimeout()
-			return inFlight, nil
-		}
+	var inFlight *inFlightRequest
+	if inFlight, err = h.addInFlight(streamId, managedStreamId); err == nil {
+		inFlight.startTimeout()
+		return inFlight, nil
 	}
 	if managedStreamId {
 		// the request was refused after a stream id was borrowed: give the id back, and leave the frame as it was
@@ -133,12 +123,17 @@ func (h *inFlightRequestsHandler) onIncomingFrameReceived(f *frame.Frame) error 
 }
 
 func (h *inFlightRequestsHandler) addInFlight(streamId int16, managedStreamId bool) (*inFlightRequest, error) {
-	inFlight := newInFlightRequest(h.String(), streamId, managedStreamId, h.ctx, h.maxPending, h.timeout)
+	// check and insert under the same lock, otherwise two concurrent requests could both pass the checks
 	h.inFlightLock.Lock()
 	defer h.inFlightLock.Unlock()
 	if h.isClosed() {
 		return nil, fmt.Errorf("%v: handler closed", h)
+	} else if len(h.inFlight) >= h.maxInFlight {
+		return nil, fmt.Errorf("%v: too many in-flight requests: %v", h, h.maxInFlight)
+	} else if _, found := h.inFlight[streamId]; found {
+		return nil, fmt.Errorf("%v: stream id already in use: %d", h, streamId)
 	}
+	inFlight := newInFlightRequest(h.String(), streamId, managedStreamId, h.ctx, h.maxPending, h.timeout)
 	h.inFlight[streamId] = inFlight
 	return inFlight, nil
 }
